@@ -47,8 +47,8 @@ class C12(Prop):
     id = "C12"
     level = "exploration"
     tiers = {
-        "quick": [("history", 40000), ("expiry", 25000)],
-        "thorough": [("history", 900000), ("expiry", 600000)],
+        "quick": [("history", 240000), ("expiry", 150000)],
+        "thorough": [("history", 4800000), ("expiry", 3000000)],
     }
     rule_text = (
         "one case = flavour (sync/async function, sync/async method) x limit 1..4 x expiration {None, 1/8, 1, 5} x a "
